@@ -877,19 +877,28 @@ def shrink_candidates(case):
 
 MANIFEST = {
     "level_text": (
-        "Machine-checked proofs (Coq 8.16) about (a) the certificate checker cert_ok that is run, extracted, on the "
-        "implementation's own (x, y, u, v): cert_ok = true implies x is a minimum-cost perfect matching over listed pairs, "
-        "y its inverse and (u, v) a dual certificate, for every n and every sparsity pattern; (b) a line-level executable "
-        "Gallina model of lapjv.py + _lapjv.pyx with switches rt in {AsIs, Fixed}, eps in {2^-26, 0} over "
-        "ext = Fin Z | +inf | -inf | NaN, which is compared bit for bit with the freshly built implementation; the faithful "
-        "(AsIs, 2^-26) model is refuted by kernel-evaluated witnesses (findings F1, F6) while the repaired variants are "
-        "certified on them; (c) the tracker's read-back of the solver result is injective for every permutation."),
+        "Machine-checked proofs (Coq 8.16, 46 theorems, all closed under the global context) about (a) the certificate "
+        "checker cert_ok that is run, extracted, on the implementation's own (x, y, u, v): acceptance implies x is a "
+        "minimum-cost perfect matching over listed pairs, y its inverse and (u, v) a dual certificate, for every n and every "
+        "sparsity pattern; (b) a line-level executable Gallina model of lapjv.py + _lapjv.pyx with switches rt in {AsIs, Fixed}, "
+        "eps in {2^-26, 0} over ext = Fin Z | +inf | -inf | NaN, compared bit for bit with the freshly built implementation; "
+        "the faithful (AsIs, 2^-26) model is refuted by kernel-evaluated witnesses (findings F1, F6); for the repaired "
+        "(Fixed, eps 0) model, and for (Fixed, 2^-26) on cost grids coarser than 2^-26, it is PROVED for every input with a "
+        "perfect matching that whenever the model returns, x and y are mutually inverse permutations over listed pairs "
+        "(C01_lapjv_fixed_pm: all four phases - column reduction, reduction transfer, augmenting row reduction incl. -inf "
+        "prices via a Hall argument, augment with its pred chain / flip) and, when every row lists at least two candidates, "
+        "that x is a minimum-cost perfect matching (C01_lapjv_fixed_optimal: Dijkstra invariant of augment "
+        "C01_aug_dist_inv, price update C01_aug_price_slack, weak duality); (c) the tracker's read-back of the solver result "
+        "is injective for every permutation, and the identity clause holds at the level of the assignment problem."),
     "level_note": (
-        "Known findings F1 (reduction_transfer row offset) and F6 (eps tie band) are reported as KNOWN-FINDING and decided "
-        "by model attribution (impl == AsIs model and the Fixed model satisfies the property on that input), never muted. "
-        "Trusted: Coq kernel + vm_compute; extraction (ExtrOcamlBasic only) and the S-expression driver; the Python "
-        "harness; exactness of float64 on the dyadic inputs; NumPy lexsort/bincount/fancy-assignment semantics as "
-        "modelled. The tie between model and code is differential, not a proof about Python/Cython."),
-    "technique": "Coq proof of checker soundness + line-level executable model with AsIs/Fixed variants + exact differential correspondence",
+        "Not proved: that the Fixed model always returns (a rebuild of scan in augment is never empty - needs the adequacy of "
+        "inf = sum(c) + 1, i.e. every finite reduced-cost distance <= sum(c)); optimality for inputs with single-candidate "
+        "rows (-inf prices) - both covered per instance by the verified checker on every run. Known findings F1 "
+        "(reduction_transfer row offset) and F6 (eps tie band) are reported as KNOWN-FINDING and decided by model attribution "
+        "(impl == AsIs model and the Fixed model satisfies the property on that input), never muted. Trusted: Coq kernel + "
+        "vm_compute; extraction (ExtrOcamlBasic only) and the S-expression driver; the Python harness; exactness of float64 "
+        "on the dyadic inputs; NumPy lexsort/bincount/fancy-assignment semantics as modelled. The tie between model and code "
+        "is differential, not a proof about Python/Cython."),
+    "technique": "Coq proof of checker soundness + line-level executable model with AsIs/Fixed variants, phase invariants through all four phases of the Fixed model + exact differential correspondence",
     "design_ref": "DESIGN.md section 7, C01; section 6 (F1, F6)",
 }
